@@ -208,7 +208,7 @@ func c09NewKey(h *H, name string) c09Key {
 	return k
 }
 
-// H_C09_map: a map literal of n = Param(0) pairs plus an embedded map of Param(1) pairs;
+// H_C09_map: a map literal of n = Param(0) pairs plus embedded maps of Param(1) and Param(2) pairs;
 // every key's kind is a solver choice and int/float/array payloads are symbolic, so the
 // solver decides which keys collide.
 func H_C09_map() {
@@ -228,6 +228,7 @@ func H_C09_map() {
 		model = append(model, ent{k, v})
 	}
 	var keys []c09Key
+	var names []string
 	var parts []string
 	v := int64(0)
 	for i := 0; i < n; i++ {
@@ -235,17 +236,22 @@ func H_C09_map() {
 		name := fmt.Sprintf("k%d", i)
 		k := c09NewKey(h, name)
 		keys = append(keys, k)
+		names = append(names, name)
 		parts = append(parts, fmt.Sprintf("%s: %d", name, v))
 		add(k, v)
 	}
-	if e > 0 {
+	embed := func(prefix string, e int) {
+		if e <= 0 {
+			return
+		}
 		var ep []string
 		var inner []ent
 		for i := 0; i < e; i++ {
 			v++
-			name := fmt.Sprintf("e%d", i)
+			name := fmt.Sprintf("%s%d", prefix, i)
 			k := c09NewKey(h, name)
 			keys = append(keys, k)
+			names = append(names, name)
 			ep = append(ep, fmt.Sprintf("%s: %d", name, v))
 			dup := false
 			for _, x := range inner {
@@ -274,6 +280,8 @@ func H_C09_map() {
 			add(x.k, x.v)
 		}
 	}
+	embed("e", e)
+	embed("g", rt.Param(2)) // a second ** expansion
 	src := "m := %{" + strings.Join(parts, ", ") + "}"
 	rt.Note(src)
 	m := h.EvalNoPanic(src)
@@ -311,13 +319,6 @@ func H_C09_map() {
 		}
 	}
 	// m[k] for every written key, and for a fresh int key
-	names := []string{}
-	for i := 0; i < n; i++ {
-		names = append(names, fmt.Sprintf("k%d", i))
-	}
-	for i := 0; i < e; i++ {
-		names = append(names, fmt.Sprintf("e%d", i))
-	}
 	for i, name := range names {
 		var wv int64 = -1
 		for _, x := range model {
